@@ -27,7 +27,7 @@ CORE_TRUSTED = [
 
 class CoreCheck(LineCheck):
     coq_extra = ["theories/Core/CoreRel.vo", "theories/Core/CoreInv.vo", "theories/Core/CoreCodes.vo", "theories/Core/CoreCodes2.vo",
-                 "theories/Core/CorePhase2Fd.vo", "theories/Core/CorePhase2Time.vo", "theories/Core/CorePhase2TimeC09.vo", "theories/Core/CorePhase2Guard.vo", "theories/Core/CorePhase2GuardAll.vo", "theories/Core/CorePhase2AcctIdleTop.vo", "theories/Core/CorePhase2Ei.vo", "theories/Core/CorePhase2AcctC07.vo", "theories/Core/CoreAll.vo", "theories/Core/CoreExamples.vo"]
+                 "theories/Core/CorePhase2Fd.vo", "theories/Core/CorePhase2Time.vo", "theories/Core/CorePhase2TimeC09.vo", "theories/Core/CorePhase2Guard.vo", "theories/Core/CorePhase2GuardAll.vo", "theories/Core/CorePhase2AcctIdleTop.vo", "theories/Core/CorePhase2Ei.vo", "theories/Core/CorePhase2AcctC07.vo", "theories/Core/CoreAll.vo", "theories/Core/FairMon.vo", "theories/Core/FairMonProof.vo", "theories/Core/CoreExamples.vo"]
     codes = []             # list of (lo, hi) failure-code ranges of the Coq monitor that belong to this property
     extra_codes = []
     profiles = ["mixed"]
